@@ -16,7 +16,7 @@ Obj(ss) == [k |-> "obj", s |-> ss]
 Spr(f) == [k |-> "spread", f |-> f]
 Inl(c, ss) == [k |-> "inline", c |-> c, s |-> ss]
 
-FragNames == {"F", "G"}
+FragNames == {"F", "G", "H"}
 Sel0 == {Leaf, Spr("F"), Spr("G")}
 Seqs12(X) == {<<x>> : x \in X} \cup {<<x, y>> : x \in X, y \in X}
 Body0 == Seqs12(Sel0)
@@ -30,11 +30,20 @@ Absent == [def |-> FALSE, cond |-> "A", body |-> <<>>]
 FragDef(c, b) == [def |-> TRUE, cond |-> c, body |-> b]
 \* a document: the body under { a { ... } } and the two fragment definitions (G may be missing)
 Docs(rich) ==
-  {[body |-> ob, F |-> FragDef(fc, fb), G |-> g] :
+  {[body |-> ob, F |-> FragDef(fc, fb), G |-> g, H |-> Absent] :
       ob \in OpBodies, fc \in {"A", "B"}, fb \in FragBodies(rich),
       g \in {Absent} \cup {FragDef(gc, gb) : gc \in {"A", "B"}, gb \in FragBodies(rich)}}
 
-Frag(doc, f) == IF f = "F" THEN doc.F ELSE doc.G
+\* three fragments, every one applicable: a spread cycle can lie BEHIND the fragment the operation enters through
+\* (F -> G -> H -> G), and each fragment may also be reached a second time on another path
+Sel3 == {Leaf, Spr("F"), Spr("G"), Spr("H")}
+Body3 == {<<x>> : x \in Sel3} \cup {<<Leaf, x>> : x \in Sel3 \ {Leaf}} \cup {<<Obj(<<x>>)>> : x \in Sel3 \ {Leaf}}
+           \cup {<<Spr("G"), Spr("H")>>, <<Inl("A", <<Spr("H")>>)>>}
+Docs3 ==
+  {[body |-> <<Spr(e)>>, F |-> FragDef("A", fb), G |-> FragDef("A", gb), H |-> FragDef("A", hb)] :
+      e \in {"F", "G"}, fb \in Body3, gb \in Body3, hb \in Body3}
+
+Frag(doc, f) == CASE f = "F" -> doc.F [] f = "G" -> doc.G [] OTHER -> doc.H
 CondApplies(c, t) == c = "" \/ c = t
 
 \* ---- static analysis of the fragment graph
@@ -66,7 +75,9 @@ SpreadsLive(ss, t) ==
 
 Enterable(doc, f) == Frag(doc, f).def /\ CondApplies(Frag(doc, f).cond, "A")
 \* closure of a one-step relation over the two fragment names
-Closure(step(_), S) == LET s1 == S \cup UNION {step(f) : f \in S} IN s1 \cup UNION {step(f) : f \in s1}
+Closure(step(_), S) == LET s1 == S \cup UNION {step(f) : f \in S}
+                           s2 == s1 \cup UNION {step(f) : f \in s1}
+                       IN s2 \cup UNION {step(f) : f \in s2}
 StepAll(doc, f) == IF Frag(doc, f).def THEN SpreadsAll(Frag(doc, f).body) ELSE {}
 StepLive(doc, f) == IF Enterable(doc, f) THEN SpreadsLive(Frag(doc, f).body, "A") ELSE {}
 StepND(doc, f) == IF Enterable(doc, f) THEN SpreadsND(Frag(doc, f).body, "A") ELSE {}
@@ -90,5 +101,5 @@ RenderSel(h) ==
     [] h.k = "inline" -> (IF h.c = "" THEN <<"...", "{">> ELSE <<"...", "on", h.c, "{">>) \o RenderSels(h.s) \o <<"}">>
 RenderSels(ss) == IF ss = <<>> THEN <<>> ELSE RenderSel(Head(ss)) \o RenderSels(Tail(ss))
 RenderFrag(n, fd) == IF fd.def THEN <<"fragment", n, "on", fd.cond, "{">> \o RenderSels(fd.body) \o <<"}">> ELSE <<>>
-RenderDoc(d) == <<"{", "a", "{">> \o RenderSels(d.body) \o <<"}", "}">> \o RenderFrag("F", d.F) \o RenderFrag("G", d.G)
+RenderDoc(d) == <<"{", "a", "{">> \o RenderSels(d.body) \o <<"}", "}">> \o RenderFrag("F", d.F) \o RenderFrag("G", d.G) \o RenderFrag("H", d.H)
 =============================================================================
